@@ -11,7 +11,8 @@ RULE = ("a case is a generated listing (1-3 sections of one or several contiguou
         "symbolic operands; five ISA/format pairs) plus 1-5 (thorough 1-9) non-overlapping "
         "insert_at/replace_at/delete_at/register_insert (AllBlocksScope, SingleBlockScope) requests on instruction boundaries in "
         "arbitrary registration order (one edit element in eight is a chain of whole-block deletions of 2-4 consecutive blocks, "
-        "each with its own retarget_to_proxy flag), patches of instructions and data directives; the input CFG's edges are "
+        "each with its own retarget_to_proxy flag), patches of instructions, data directives and `.balign 1` (splits the patch's "
+        "block, never pads); the input CFG's edges are "
         "added in derivation order or in a generated permutation; "
         "section bytes after RewritingContext.apply() must equal the bytes of the list-edited listing (with alignment metadata: "
         "once whole nop/zero runs in front of aligned blocks are removed). "
